@@ -58,6 +58,8 @@ def applies(row, bit: int) -> bool:
 
 _APP = None
 _CUR_DEFAULTS = None
+EXTRA_STREAMS: list = []
+EXTRA_ERRORS: list = []
 
 
 def app():
@@ -65,6 +67,18 @@ def app():
     if _APP is None:
         import appboot
         _APP = appboot.get_app(("bbb", "tears"))
+        # the same media files again, as streams whose timing reference is NOT the video track: what a
+        # manifest computes from stream/track properties (time of day -> segment number) must use the
+        # track the option applies to, whatever the stream's reference is
+        src = appboot.FIXTURES / "bbb"
+        stems = sorted(p.stem for p in src.glob("bbb_[avt]*.mp4"))
+        for directory, prefix, ref in (("bbbaref", "aref", "aref_a1"), ("bbbtref", "tref", "tref_t1")):
+            try:
+                _APP.add_stream(directory, f"bbb, timing reference {ref}",
+                                [(prefix + st[3:], src / f"{st}.mp4") for st in stems], timing_from=ref)
+                EXTRA_STREAMS.append(directory)
+            except Exception as e:      # a layout the server refuses is reported once, not silently dropped
+                EXTRA_ERRORS.append(f"{directory}: {type(e).__name__}: {e}")
         set_defaults("A")
     return _APP
 
@@ -302,7 +316,8 @@ def e2e_value(row, rng, mode, now_dt):
 def gen_case(rng, rows):
     manifest, modes = rng.choice(MANIFESTS[:1] * 4 + MANIFESTS)
     mode = rng.choice(modes)
-    stream = "tears" if rng.random() < .25 else "bbb"
+    k0 = rng.random()
+    stream = "tears" if k0 < .25 else "bbbaref" if k0 < .32 else "bbbtref" if k0 < .38 else "bbb"
     now_dt = parse_xs_datetime(NOW)
     k = rng.choice([0, 1, 2, 3, 4, 5, 7, 10])
     media = [i for i, r in enumerate(rows) if r["usage"] & 14]
